@@ -111,6 +111,36 @@ fn uni_raw() -> Uni {
     Uni::from_spec("U_RAW", 0, u, &spec)
 }
 
+/// `U_AR`: every state of `U_A` level 0 re-rooted at each other existing node of the root
+/// instance (the root itself is part of what the state root commits to).  Enumerated together
+/// with the original states so that collisions *across* roots would be seen.
+fn uni_rerooted() -> Uni {
+    let base = Uni::a(0);
+    let mut states = base.states.clone();
+    for s in &base.states {
+        for n in 1..3u8 {
+            if s.nodes.contains_key(&(0, n)) {
+                let mut t = s.clone();
+                if let Some(i) = t.instances.get_mut(&0) {
+                    i.root = n;
+                }
+                if t.well_formed() {
+                    states.push(t);
+                }
+            }
+        }
+    }
+    states.sort();
+    states.dedup();
+    Uni {
+        name: "U_AR".into(),
+        level: 0,
+        u: base.u,
+        states,
+        raw: base.raw,
+    }
+}
+
 // ---------------------------------------------------------------------------------------------
 // per-state work
 // ---------------------------------------------------------------------------------------------
@@ -812,7 +842,11 @@ fn replay(r: &Report, path: &std::path::Path) {
     let case = if v["detail"]["case"].is_object() { &v["detail"]["case"] } else { &v["case"] };
     let name = case["universe"].as_str().unwrap_or("U_A");
     let level = case["level"].as_u64().unwrap_or(0) as u8;
-    let uni = if name == "U_RAW" { Some(uni_raw()) } else { Uni::by_name(name, level) };
+    let uni = match name {
+        "U_RAW" => Some(uni_raw()),
+        "U_AR" => Some(uni_rerooted()),
+        _ => Uni::by_name(name, level),
+    };
     let Some(uni) = uni else {
         r.machinery_error("replay: unknown universe");
         return;
@@ -906,7 +940,8 @@ fn main() {
     let mut t = new_tot();
 
     // ---- per-state sub-checks (1)(2)(3a)(4) and (5) --------------------------------------------
-    let mut unis: Vec<Uni> = vec![Uni::a(0), Uni::b(0), uni_raw()];
+    // U_AR contains every state of U_A level 0 (plus all re-rootings), so U_A0 is not listed again
+    let mut unis: Vec<Uni> = vec![uni_rerooted(), Uni::b(0), uni_raw()];
     if r.thorough() {
         unis.push(Uni::a(1));
         unis.push(Uni::b(1));
@@ -915,11 +950,12 @@ fn main() {
         state_phase(&r, &mut t, uni);
     }
     // ---- (3b) pairs ---------------------------------------------------------------------------
+    let ua0 = Uni::a(0);
     if r.quick() {
-        pair_phase(&r, &mut t, &unis[0], Some(2));
+        pair_phase(&r, &mut t, &ua0, Some(2));
         pair_phase(&r, &mut t, &unis[1], Some(4));
     } else {
-        pair_phase(&r, &mut t, &unis[0], None);
+        pair_phase(&r, &mut t, &ua0, None);
         pair_phase(&r, &mut t, &unis[1], None);
         pair_phase(&r, &mut t, &unis[3], Some(2));
         pair_phase(&r, &mut t, &unis[4], Some(2));
